@@ -465,6 +465,7 @@ func runMap(c *sup.Child, b sup.Batch) {
 			sepAt = rng.Intn(n + 1)
 		}
 		order := []string{}
+		emptyPositional := false
 		for i := 0; i < n || i == sepAt; i++ {
 			if i == sepAt {
 				args = append(args, "--")
@@ -491,6 +492,10 @@ func runMap(c *sup.Child, b sup.Batch) {
 				if v == "--" {
 					v = "x"
 				}
+				if rng.Intn(8) == 0 {
+					v = "" // an empty argument (\"\" on a line) is an argument: it has its own $n
+					emptyPositional = true
+				}
 				args = append(args, v)
 				want[fmt.Sprintf("$%d", pos)] = v
 				pos++
@@ -516,6 +521,9 @@ func runMap(c *sup.Child, b sup.Batch) {
 				r.Violate("map-separated", fmt.Sprintf("InjectArgs(%q): \"--\" = %q want %q", args, gotSep, wantSep), nil)
 			}
 			r.AddObs("map_lists", 1)
+			if emptyPositional {
+				r.AddObs("map_lists_with_an_empty_positional_argument", 1)
+			}
 			r.AddObs("map_keys_checked", int64(len(want)))
 			r.Key = "map:" + strings.Join(args, "\x00")
 			r.Nontrivial = len(want) > 0
